@@ -251,9 +251,10 @@ class Interp:
             if ua != ub:
                 self.mismatch(op, ua, ub, sym)
                 # keep going with one operand's unit: the left one for sub; for the commutative operations a choice that does not depend on
-                # the order in which the operands are written (the one carrying the larger power of c, then by text)
+                # the order in which the operands are written (the one carrying the larger power of c, then the one with the smaller power of h - a multiply-assigned
+                # local is read with its first definition, before the division by tau - then by text)
                 if op != 'sub':
-                    rank = lambda u: (u.get('c', 0), sorted((str(k), v) for k, v in u.items()))
+                    rank = lambda u: (u.get('c', 0), -abs(u.get('h', 0)), sorted((str(k), v) for k, v in u.items()))
                     if rank(ub) > rank(ua):
                         return S(ub)
             return S(ua)
